@@ -166,6 +166,12 @@ func (t Table) addRoute(d *RouteDef) error {
 	switch {
 	// add new host
 	case t[host] == nil:
+		// the host is matched as a glob pattern against the host of every
+		// request. Refuse a pattern which does not compile here instead of
+		// failing every lookup later.
+		if _, err := glob.Compile(host); err != nil {
+			return fmt.Errorf("route: invalid host %q. %s", host, err)
+		}
 		g, err := glob.Compile(path)
 		if err != nil {
 			return err
@@ -322,15 +328,15 @@ func (t Table) matchingHosts(req *http.Request, globCache *GlobCache) (hosts []s
 		//Get Compiled Glob from LRU cache
 		g, err := globCache.Get(normpat)
 		if err != nil {
+			// not a pattern: it can still match literally
 			log.Print("[Error] Compiling glob - ", err)
-			g = glob.MustCompile(normpat)
 		}
 
 		switch {
 		case normpat == host:
 			// a literal match is more specific than any glob pattern
 			exact = append(exact, pattern)
-		case g.Match(host):
+		case g != nil && g.Match(host):
 			hosts = append(hosts, pattern)
 		}
 	}
